@@ -241,6 +241,10 @@ def combo_decls():
     for ty in ("i16", "f64", "f32"):
         fam = "int" if ty == "i16" else "float"
         enc = (lambda x: x) if fam == "int" else (lambda x, ty=ty: f_bits(ty, float(x)))
+        if fam == "float":
+            # written as LITERALS (3.0, 9.0), not as from_bits expressions
+            for x in (3, 9):
+                render_value.FLOAT_LITS[(ty, f_bits(ty, float(x)))] = "%d.0" % x
         for lo, up, fin, pr in itertools.product((None, "greater", "greater_or_equal"), (None, "less", "less_or_equal"), (0, 1), (0, 1)):
             if fam == "int" and fin:
                 continue
